@@ -92,7 +92,7 @@ def cases(tier, rng):
                 for f, tgt in (("kill", pl), ("exit", pl), ("kill", owners[0]), ("exit", owners[0])):
                     add(sh, [("kill", wk), ("pause", ""), ("poke", pl), ("settle", ""), (f, tgt)])
         # two and three faults in a row without waiting
-        for _ in range(10 if tier == "quick" else 150):
+        for _ in range(10 if tier == "quick" else 1200):
             k = rng.choice([2, 2, 3])
             ops = []
             for _ in range(k):
